@@ -54,3 +54,57 @@ def strerror_table():
     text += "Definition strerror_default : list Z := %s.\n" % bl(d.group(1))
     vlib.write_if_changed(os.path.join(vlib.COQ, "Gen", "StunErrTab.v"), text)
     return {"entries": len(ents)}, ""
+
+
+def component_state_tables():
+    """coq/Gen/CompState.v from agent_signal_component_state_change() (agent/agent.c), docs/reference/libnice/states.gv
+    and the inventory of call sites of the choke point (function name + requested state expression)."""
+    names = ["DISCONNECTED", "GATHERING", "CONNECTING", "CONNECTED", "READY", "FAILED"]
+    src = open(os.path.join(vlib.REPO, "agent/agent.c")).read()
+    m = re.search(r"void agent_signal_component_state_change \(.*?\n\}\n", src, re.S)
+    if not m:
+        return None, "agent_signal_component_state_change not found"
+    body = m.group(0)
+    flat = re.sub(r"/\*.*?\*/", " ", body, flags=re.S)
+    flat = re.sub(r"\s+", " ", flat)
+    for need in ["old_state = component->state;", "if (new_state == old_state) { return; }", "component->state = new_state;",
+                 "agent_queue_signal (agent, signals[SIGNAL_COMPONENT_STATE_CHANGED], stream_id, component_id, new_state);"]:
+        if need not in flat:
+            return None, "choke point no longer has the expected shape: missing `%s`" % need
+    a = re.search(r"g_assert \((.*?)\); #undef TRANSITION", flat)
+    if not a:
+        return None, "whitelist assertion not found in the choke point"
+    expr = a.group(1)
+    pairs = re.findall(r"TRANSITION \((\w+), (\w+)\)", expr)
+    anyt = re.findall(r"\(new_state == NICE_COMPONENT_STATE_(\w+)\)", expr)
+    rest = re.sub(r"TRANSITION \(\w+, \w+\)|\(new_state == NICE_COMPONENT_STATE_\w+\)|\|\||\s", "", expr)
+    if rest.strip("()"):
+        return None, "whitelist assertion contains something other than TRANSITION(..) / (new_state == X) disjuncts: %s" % rest[:80]
+    if not (flat.index("if (new_state == old_state)") < flat.index("g_assert (") < flat.index("component->state = new_state;")):
+        return None, "choke point: same-state return / assertion / assignment are no longer in this order"
+    gv = open(os.path.join(vlib.REPO, "docs/reference/libnice/states.gv")).read()
+    edges = re.findall(r"^\s*(\w+)\s*->\s*(\w+)", gv, re.M)
+    for x, y in pairs + edges:
+        if x not in names or y not in names:
+            return None, "unknown state name %s/%s" % (x, y)
+    # call sites
+    sites = []
+    for f in ("agent/agent.c", "agent/conncheck.c", "agent/stream.c", "agent/component.c", "agent/discovery.c"):
+        txt = open(os.path.join(vlib.REPO, f)).read()
+        for mm in re.finditer(r"agent_signal_component_state_change\s*\(([^;]*?)\)\s*;", txt, re.S):
+            if "NiceComponentState new_state" in mm.group(1):
+                continue
+            args = [x.strip() for x in re.sub(r"\s+", " ", mm.group(1)).rsplit(",", 1)]
+            # enclosing function: last "name (" at line start before the match
+            head = txt[:mm.start()]
+            fn = re.findall(r"^(\w[\w_]*)\s*\((?:[^;{]|\n)*?\)\s*\{", head, re.M)
+            sites.append((f, fn[-1] if fn else "?", args[-1]))
+    def cs(x): return x
+    text = "(* GENERATED from agent/agent.c, docs/reference/libnice/states.gv by lib/tabgen.py - do not edit *)\nFrom Coq Require Import List String.\nImport ListNotations.\n"
+    text += "Inductive cstate := " + " | ".join(names) + ".\n"
+    text += "Definition whitelist_pairs : list (cstate * cstate) := [" + "; ".join("(%s, %s)" % p for p in pairs) + "].\n"
+    text += "Definition whitelist_any_target : list cstate := [" + "; ".join(anyt) + "].\n"
+    text += "Definition doc_edges : list (cstate * cstate) := [" + "; ".join("(%s, %s)" % p for p in edges) + "].\n"
+    text += "Local Open Scope string_scope.\nDefinition call_sites : list (string * string * string) := [\n " + ";\n ".join('("%s", "%s", "%s")' % s for s in sites) + "].\n"
+    vlib.write_if_changed(os.path.join(vlib.COQ, "Gen", "CompState.v"), text)
+    return {"pairs": pairs, "any": anyt, "edges": edges, "sites": sites}, ""
